@@ -108,8 +108,9 @@ Lemma pess_insert_absent st r k rs :
 Proof.
   intros Hd Hf Hin Hst. cbn [step] in Hst.
   destruct (pess_lock_all st st r (p_keys r)) as [[acc es] rs0] eqn:Ea.
-  destruct es as [|e es]; cbn [snd] in Hst; [|discriminate].
-  destruct (pess_lock_all_ok st r _ _ _ _ Ea k true Hin) as [res [o Hk]].
+  destruct es as [|e es].
+  2:{ destruct (p_force r && negb (Nat.eqb (length rs0) (length (p_keys r)))); cbn [snd] in Hst; discriminate. }
+  clear Hst. destruct (pess_lock_all_ok st r _ _ _ _ Ea k true Hin) as [res [o Hk]].
   unfold read_at, writes_of. erewrite pess_lock_key_notexist; [reflexivity|apply Hd|exact Hf|apply N.le_refl|exact Hk].
 Qed.
 
